@@ -584,6 +584,15 @@ def charset(f, facts=None):
                     return same if name.endswith("::eq") else universe() & ~same
         if name == "atom":
             at = args[0]
+            # match on the char narrowed to a byte / u16 (`c as u8`): the cast keeps the low bits
+            if at[0] == "val" and at[1][0] == "cast" and at[1][1] in ("IntToInt>u8", "IntToInt>u16") and strip(at[1][2]) == CPARAM:
+                width = 8 if at[1][1].endswith("u8") else 16
+                kind, vals = at[2]
+                vals = (vals,) if kind == "eq" else tuple(vals)
+                hit = bits_cached("low%d_in_%s" % (width, ",".join(str(v) for v in sorted(vals))), lambda c: (c & ((1 << width) - 1)) in vals)
+                return hit if kind in ("eq", "in") else universe() & ~hit
+            if at[0] == "val" and at[1][0] == "cast" and at[1][1] in ("IntToInt>u32", "IntToInt>u64", "IntToInt>usize", "IntToInt>i64", "IntToInt>u128") and strip(at[1][2]) == CPARAM:
+                at = ("val", CPARAM, at[2])   # a widening cast of a char keeps its value
             # match on the char itself:  ("val", cparam, outcome)
             if at[0] == "val" and at[1] == CPARAM:
                 kind, vals = at[2]
